@@ -14,7 +14,7 @@ annotation in the value's type), wholly known, unmarked, capsule-free, conformin
 `t`, and `NumOK` (every number is finite and its `Text('f',-1)` re-parses at 512 bits to
 a `rawNumberEqual` number — an explicit hypothesis, probed by the harness on every run
 for int64/uint64, integers that fit their precision and parsed decimals).
-`rtCheck env top v t` is the conclusion: Marshal succeeds, Unmarshal of its output with
+`rtCheck env v t` is the conclusion: Marshal succeeds, Unmarshal of its output with
 the same constraint succeeds, the types are `Equals`, the payloads are `sameP` (structural
 equality, numbers by `rawNumberEqual`: what `RawEquals`/`Equals` compute on known
 set-free values).
@@ -42,7 +42,7 @@ the same constraint yields a value of the same type equal to the original").
 It is FALSE of the code as it exists — see the counterexamples — and is kept here so that
 it stays visible. -/
 def roundtrip : Prop :=
-  ∀ (env : JEnv) (top : Bool) (v : Value) (t : Ty), rtHyps env v t = true → rtCheck env top v t = true
+  ∀ (env : JEnv) (v : Value) (t : Ty), rtHyps env v t = true → rtCheck env v t = true
 
 /-- The strongest version that holds: the round trip succeeds for every set-free value at
 every depth, dynamic wrappers included, provided every `null` and every empty
@@ -51,9 +51,9 @@ itself or is the value's own type there (`exact`) — positions where JSON's `nu
 `{}` can still be given their type back.  Conclusion in full: the encoder returns a
 document, the decoder returns a value of exactly the original type whose payload is the
 same up to `rawNumberEqual` on numbers. -/
-theorem roundtrip_partial (env : JEnv) (top : Bool) (v : Value) (t : Ty)
+theorem roundtrip_partial (env : JEnv) (v : Value) (t : Ty)
     (h : rtHyps env v t = true) (hs : setFree v.ty = true) (hx : exact t v.ty v.v = true) :
-    ∃ j v', marshal env v t = .ok j ∧ unmarshal env top j t = .ok v' ∧ v'.ty = v.ty ∧
+    ∃ j v', marshal env v t = .ok j ∧ unmarshal env j t = .ok v' ∧ v'.ty = v.ty ∧
       sameP v'.v v.v = true := by
   simp only [rtHyps, Bool.and_eq_true, Bool.not_eq_true'] at h
   obtain ⟨⟨⟨⟨⟨⟨⟨⟨⟨⟨h1, h2⟩, h3⟩, h4⟩, h5⟩, h6⟩, h7⟩, h8⟩, h9⟩, h10⟩, h11⟩ := h
@@ -62,16 +62,16 @@ theorem roundtrip_partial (env : JEnv) (top : Bool) (v : Value) (t : Ty)
       known := h7, unmarked := h8, nums := h11, strs := h5 }
   obtain ⟨j, p', hj, hu, hsame⟩ := rt_entry env v.v t v.ty hr hx
     (fun t' a b c => rt_body env v.v t' v.ty a b c)
-  exact ⟨j, ⟨v.ty, p'⟩, hj, hu top, rfl, hsame⟩
+  exact ⟨j, ⟨v.ty, p'⟩, hj, hu, rfl, hsame⟩
 
 /-- … and "equal" in the sense of the code: the transliteration of `Value.Equals`
 (`Value.equals`, the model C01–C03 diff against the implementation) answers a known `True`
 for the decoded value and the original. -/
-theorem roundtrip_partial_equals (env : JEnv) (top : Bool) (v : Value) (t : Ty)
+theorem roundtrip_partial_equals (env : JEnv) (v : Value) (t : Ty)
     (h : rtHyps env v t = true) (hs : setFree v.ty = true) (hx : exact t v.ty v.v = true) :
-    ∃ j v', marshal env v t = .ok j ∧ unmarshal env top j t = .ok v' ∧ v'.ty = v.ty ∧
+    ∃ j v', marshal env v t = .ok j ∧ unmarshal env j t = .ok v' ∧ v'.ty = v.ty ∧
       Value.equals v' v = .ok (Value.boolVal true) := by
-  obtain ⟨j, v', hj, hu, hty, hsame⟩ := roundtrip_partial env top v t h hs hx
+  obtain ⟨j, v', hj, hu, hty, hsame⟩ := roundtrip_partial env v t h hs hx
   have h' := h
   simp only [rtHyps, Bool.and_eq_true, Bool.not_eq_true'] at h'
   obtain ⟨⟨⟨⟨⟨⟨⟨⟨⟨⟨_, h2⟩, _⟩, h4⟩, _⟩, _⟩, h7⟩, h8⟩, _⟩, _⟩, _⟩ := h'
@@ -83,10 +83,10 @@ theorem roundtrip_partial_equals (env : JEnv) (top : Bool) (v : Value) (t : Ty)
   exact this
 
 /-- the same, as the check the harness evaluates -/
-theorem roundtrip_partial_check (env : JEnv) (top : Bool) (v : Value) (t : Ty)
+theorem roundtrip_partial_check (env : JEnv) (v : Value) (t : Ty)
     (h : rtHyps env v t = true) (hs : setFree v.ty = true) (hx : exact t v.ty v.v = true) :
-    rtCheck env top v t = true := by
-  obtain ⟨j, v', hj, hu, hty, hsame⟩ := roundtrip_partial env top v t h hs hx
+    rtCheck env v t = true := by
+  obtain ⟨j, v', hj, hu, hty, hsame⟩ := roundtrip_partial env v t h hs hx
   have hw : wf v.ty = true := by
     simp only [rtHyps, Bool.and_eq_true] at h
     exact h.1.1.1.1.1.1.1.1.1.2
@@ -96,21 +96,25 @@ theorem roundtrip_partial_check (env : JEnv) (top : Bool) (v : Value) (t : Ty)
 against `List(DynamicPseudoType)` is written as `null` and read back as
 `NullVal(List(DynamicPseudoType))` — the type is lost. -/
 theorem roundtrip_counterexample : ¬ roundtrip := fun h =>
-  absurd (h env0 true ⟨.list .string, .null⟩ (.list .dyn) (by decide)) (by decide)
+  absurd (h env0 ⟨.list .string, .null⟩ (.list .dyn) (by decide)) (by decide)
 
 /-- the same for an empty collection: `ListValEmpty(Bool)` against `List(Dynamic)` comes
 back as `ListValEmpty(DynamicPseudoType)` -/
 theorem roundtrip_empty_counterexample :
     rtHyps env0 ⟨.list .bool, .seq []⟩ (.list .dyn) = true ∧
-    rtCheck env0 true ⟨.list .bool, .seq []⟩ (.list .dyn) = false := by decide
+    rtCheck env0 ⟨.list .bool, .seq []⟩ (.list .dyn) = false := by decide
 
-/-- and the worse variant: inside a list the mistyped null makes the decoder PANIC on the
-encoder's own output (`[null, ["a"]]` as `List(List(Dynamic))`: "inconsistent list element
-types") -/
-theorem roundtrip_panic_counterexample :
+/-- and inside a list the mistyped null makes the decoder REFUSE the encoder's own output:
+`[null, ["a"]]` as `List(List(Dynamic))` is answered with the error "all list elements must
+have the same type" (`cty.CanListVal`; before /repo e63bbcc it was a panic in `cty.ListVal`).
+Still a failed round trip, no longer a crash. -/
+theorem roundtrip_refused_counterexample :
     rtHyps env0 ⟨.list (.list .string), .seq [.null, .seq [.s "a"]]⟩ (.list (.list .dyn)) = true ∧
     (match marshal env0 ⟨.list (.list .string), .seq [.null, .seq [.s "a"]]⟩ (.list (.list .dyn)) with
-     | .ok j => (unmarshal env0 true j (.list (.list .dyn))).isPanic
+     | .ok j =>
+       (match unmarshal env0 j (.list (.list .dyn)) with
+        | .err _ => true
+        | _ => false)
      | _ => false) = true := by decide
 
 /-- `NumOK` is needed: the float64 nearest to 1e23 (= 2980232238769531·2^25, precision
@@ -118,7 +122,7 @@ theorem roundtrip_panic_counterexample :
 float64s, and read back at 512 bits as exactly 10^23 — a different integer. -/
 theorem numOK_needed_counterexample :
     numOK (.fin false 2980232238769531 25 53) = false ∧
-    rtCheck env0 true ⟨.number, .n (.fin false 2980232238769531 25 53)⟩ .number = false := by
+    rtCheck env0 ⟨.number, .n (.fin false 2980232238769531 25 53)⟩ .number = false := by
   decide +kernel
 
 /-! ## Mirror: a value against its own type -/
@@ -131,13 +135,13 @@ theorem exact_self (vt : Ty) (p : Payload) (hw : wf vt = true) (hp : wfP vt p = 
 
 /-- … so `Unmarshal(Marshal(v, v.Type()), v.Type())` returns `v` for every set-free value
 (no side condition on nulls or empties) -/
-theorem mirror (env : JEnv) (top : Bool) (v : Value)
+theorem mirror (env : JEnv) (v : Value)
     (h : rtHyps env v v.ty = true) (hs : setFree v.ty = true) :
-    ∃ j v', marshal env v v.ty = .ok j ∧ unmarshal env top j v.ty = .ok v' ∧ v'.ty = v.ty ∧
+    ∃ j v', marshal env v v.ty = .ok j ∧ unmarshal env j v.ty = .ok v' ∧ v'.ty = v.ty ∧
       sameP v'.v v.v = true := by
   have h' := h
   simp only [rtHyps, Bool.and_eq_true] at h'
-  exact roundtrip_partial env top v v.ty h hs (exact_self v.ty v.v h'.1.1.1.1.1.1.1.1.1.2 h'.1.1.1.1.1.1.1.2)
+  exact roundtrip_partial env v v.ty h hs (exact_self v.ty v.v h'.1.1.1.1.1.1.1.1.1.2 h'.1.1.1.1.1.1.1.2)
 
 /-- "the bytes are valid JSON whose plain decoding mirrors the value's structure": against
 its own placeholder-free type a set-free value is encoded without any wrapper object —
@@ -189,40 +193,48 @@ example :
 /-- THE FULL STATEMENT of the document clause ("for any valid JSON document with
 representable numbers and no conflicting duplicate keys the implied type is the document's
 structural type, unmarshalling with it succeeds and re-marshalling gives the same document
-up to key order, number spelling and string normalization").  FALSE of the code as it
-exists (`doc_roundtrip_counterexample`). -/
+up to key order, number spelling and string normalization"), for an idempotent `norm`.
+NOT PROVED in this generality (unsorted keys, duplicates with equal types) and, since /repo
+5aa0ac9, no counterexample is known: the former one (`{"e\u0301": null}`) now passes, see
+`doc_roundtrip_nonNFC_key`.  The harness evaluates this check on every generated document. -/
 def doc_roundtrip : Prop :=
-  ∀ (env : JEnv) (top : Bool) (d : Json), docValid env d = true → docCheckFull env top d = true
+  ∀ (env : JEnv) (d : Json), (∀ s, env.norm (env.norm s) = env.norm s) →
+    docValid env d = true → docCheckFull env d = true
 
-/-- What holds: for every document (any depth) whose object keys are distinct, ascending
-and normalised, whose strings are normalised and whose numbers are representable, the
-implied type IS the structural type, unmarshalling with it succeeds at top level and
-nested, the value has exactly that type, and re-marshalling returns the document up to
-number spelling only (no reordering is needed for such documents). -/
-theorem doc_roundtrip_partial (env : JEnv) (top : Bool) (d : Json) (h : docOK env d = true) :
-    impliedType env d = .ok (structTy d) ∧
-    ∃ v d', unmarshal env top d (structTy d) = .ok v ∧ v.ty = structTy d ∧
-      marshal env v (structTy d) = .ok d' ∧ jsonEquiv d' d = true := by
+/-- What is proved: for every document (any depth) in which the NORMAL FORMS of the keys of
+each object are strictly ascending (so no duplicates, also none after normalisation) and
+whose numbers are representable — keys and strings need NOT be normalised — the implied
+type IS the structural type (over the normalised keys), unmarshalling with it succeeds, the
+value has exactly that type, and re-marshalling returns the document with every key and
+string replaced by its normal form, up to number spelling. -/
+theorem doc_roundtrip_partial (env : JEnv) (d : Json) (h : docOK env d = true) :
+    impliedType env d = .ok (structTy env.norm d) ∧
+    ∃ v d', unmarshal env d (structTy env.norm d) = .ok v ∧ v.ty = structTy env.norm d ∧
+      marshal env v (structTy env.norm d) = .ok d' ∧ jsonNormEq env.norm d' d = true := by
   obtain ⟨p, d', hi, hu, hm, hk, hmar, he⟩ := doc_rt env d h
-  refine ⟨hi, ⟨structTy d, p⟩, d', hu top, rfl, ?_, he⟩
+  refine ⟨hi, ⟨structTy env.norm d, p⟩, d', hu, rfl, ?_, he⟩
   unfold marshal
-  rw [marshalEntry_same (structTy d) p _ hm hk]
+  rw [marshalEntry_same (structTy env.norm d) p _ hm hk]
   exact hmar
 
 /-- the same, as the check the harness evaluates -/
-theorem doc_roundtrip_partial_check (env : JEnv) (top : Bool) (d : Json) (h : docOK env d = true) :
-    docCheck env top d = true := by
-  obtain ⟨hi, v, d', hu, _, hm, he⟩ := doc_roundtrip_partial env top d h
+theorem doc_roundtrip_partial_check (env : JEnv) (d : Json) (h : docOK env d = true) :
+    docCheck env d = true := by
+  obtain ⟨hi, v, d', hu, _, hm, he⟩ := doc_roundtrip_partial env d h
   simp [docCheck, hi, hu, hm, he]
 
 /-- an environment in which "e" + combining acute normalises to "é" (as NFC does) -/
 def envNFC : JEnv :=
   { norm := fun s => if s = "e\u0301" then "\u00e9" else s, hkey := fun _ _ => none }
 
-/-- COUNTEREXAMPLE: `{"e\u0301": null}`.  `ImpliedType` normalises the key (the attribute is
-named "é"), `unmarshalObject` looks the raw key up and reports an unsupported attribute. -/
-theorem doc_roundtrip_counterexample : ¬ doc_roundtrip := fun h =>
-  absurd (h envNFC true (.obj ["e\u0301"] [.null]) (by decide)) (by decide)
+/-- REGRESSION (fixed by /repo 5aa0ac9): `{"e\u0301": null}`.  `ImpliedType` names the
+attribute "é"; `unmarshalObject` now looks the NORMALISED key up, so the document meets the
+hypothesis of the partial theorem and passes both checks (before the fix: "unsupported
+attribute"). -/
+theorem doc_roundtrip_nonNFC_key :
+    docOK envNFC (.obj ["e\u0301"] [.null]) = true ∧
+    docCheck envNFC (.obj ["e\u0301"] [.null]) = true ∧
+    docCheckFull envNFC (.obj ["e\u0301"] [.null]) = true := by decide
 
 /-- the hypothesis of the partial theorem is satisfiable by a nested document with a null,
 an empty array, an empty object, a fraction and an exponent spelling -/
@@ -267,13 +279,13 @@ theorem implied_type_shape (env : JEnv) (j : Json) :
 
 /-- for the documents of `doc_roundtrip_partial` the implied type is the structural type -/
 theorem implied_type_structural (env : JEnv) (d : Json) (h : docOK env d = true) :
-    impliedType env d = .ok (structTy d) := (doc_roundtrip_partial env true d h).1
+    impliedType env d = .ok (structTy env.norm d) := (doc_roundtrip_partial env d h).1
 
 /-- `SimpleJSONValue.UnmarshalJSON` (implied type, then `Unmarshal` with it) succeeds on
 those documents and returns a value of the structural type -/
 theorem simple_unmarshal_typed (env : JEnv) (d : Json) (h : docOK env d = true) :
-    ∃ v, simpleUnmarshal env d = .ok v ∧ v.ty = structTy d := by
-  obtain ⟨hi, v, _, hu, hty, _, _⟩ := doc_roundtrip_partial env true d h
+    ∃ v, simpleUnmarshal env d = .ok v ∧ v.ty = structTy env.norm d := by
+  obtain ⟨hi, v, _, hu, hty, _, _⟩ := doc_roundtrip_partial env d h
   exact ⟨v, by simp [simpleUnmarshal, hi, hu], hty⟩
 
 /-! ## Sets — not proved; the full statement is false
@@ -294,13 +306,13 @@ def envHash : JEnv :=
 
 /-- the mirror clause with sets allowed (stored bucket ids agree with the hash oracle) -/
 def mirror_with_sets : Prop :=
-  ∀ (env : JEnv) (top : Bool) (v : Value), rtHyps env v v.ty = true → setsCoherent env v.ty v.v = true →
-    rtCheck env top v v.ty = true
+  ∀ (env : JEnv) (v : Value), rtHyps env v v.ty = true → setsCoherent env v.ty v.v = true →
+    rtCheck env v v.ty = true
 
 /-- COUNTEREXAMPLE: `SetVal([NumberFloatVal(3.9477794105)])` against `Set(Number)`: written
 as `[3.9477794105]`, read back as the 512-bit number, which lands in another bucket. -/
 theorem mirror_with_sets_counterexample : ¬ mirror_with_sets := fun h =>
-  absurd (h envHash true ⟨.set .number, .sset [1243578146] [.n (.fin false 4444804470517179 (-50) 53)]⟩
+  absurd (h envHash ⟨.set .number, .sset [1243578146] [.n (.fin false 4444804470517179 (-50) 53)]⟩
     (by decide +kernel) (by decide +kernel)) (by decide +kernel)
 
 /-! ## Non-vacuity -/
@@ -315,7 +327,7 @@ def sampleT : Ty :=
 
 example : rtHyps env0 sampleV sampleT = true ∧ setFree sampleV.ty = true ∧
     exact sampleT sampleV.ty sampleV.v = true := by decide +kernel
-example : rtCheck env0 true sampleV sampleT = true := by decide +kernel
+example : rtCheck env0 sampleV sampleT = true := by decide +kernel
 /-- `NumOK` holds for numbers of the classes the theorems are meant for: int64 limits,
 uint64 max, a float64 fraction, the 512-bit parse of 0.1, negative zero -/
 example :
